@@ -17,7 +17,8 @@ encode(v) of every object for every value of the alphabet - the whole observable
 caller mutates the list it passed and the list it got back: a fit encoder must not care).  Python only converts values
 and compares."""
 import collections, itertools, json, math, pickle, random
-from concurrent.futures import ThreadPoolExecutor
+import multiprocessing
+from concurrent.futures import ProcessPoolExecutor
 from fractions import Fraction
 from .. import tlc, tracecheck
 
@@ -266,9 +267,11 @@ def configs(ctx):
         add("NF3", "s", 4, 2)                              # ALL histories of 4 calls on two objects, small alphabets
         add("NF", "s", 3, 3)                               # ... of 3 calls on three objects (incl. MissingEncoder(OneHotEncoder()))
         add("TX", "s", 3, 2)
+        add("NF3", "g", 3, 2)                              # object 1 constructed with values (fit from the start)
     else:
         for ka in ("OneHot", "Factor", "Categ"):
-            add(ka, "s", 5, 2, split=True)                 # ALL histories of 5 calls on two objects
+            add(ka, "s", 5, 2, split=True)                 # ALL histories of 5 calls on two objects, object 1 unfit
+            add(ka, "g", 5, 2, split=True)                 # ... object 1 constructed with values (fit from the start)
             add(ka, "s", 4, 3)                             # ... of 4 calls on three objects
         add("MissOH", "s", 4, 2); add("MissOH", "s", 4, 3)
         add("NF3", "m", 3, 3, design=True); add("NFX", "m", 3, 3, design=True); add("MissOH", "m", 3, 3, design=True)
@@ -287,95 +290,123 @@ def sub_for(c, variant="ok", mode="hist", keep_inv=True):
     return sub
 
 
+class _R:
+    """what ctx.add_tlc reads of a TLC result (the result itself stays in the worker process)"""
+    def __init__(self, d): self.__dict__.update(d)
+
+
+def _job(args):
+    """one TLC run and - for a history run - the replay of every history it prints; runs in a worker PROCESS (the replay is
+    Python-bound).  Returns counts, per-signature violations (the first few with text and replay object) and the TLC figures."""
+    name, sub, kw, scratch, c = args
+    import coba.encodings as E
+    from coba.exceptions import CobaException
+    from coba.primitives import Categorical
+    cfg = tracecheck._cfg("Encoders.cfg", sub, scratch, "enc_%s.cfg" % name)
+    r = tlc.run("MC_Encoders", cfg, scratch, timeout=3000, heap="6g", **kw)
+    out = dict(name=name, tlc=dict(generated=r.generated, distinct=r.distinct, depth=r.depth, wall=r.wall, coverage={}),
+               spec_violations=[dict(kind=v["kind"], name=v["name"], trace=v["trace"][:60]) for v in r.violations])
+    if name.startswith("guard-"): return out
+    if name == "float":
+        out["table"] = [j for j in r.json if isinstance(j, dict) and "spelling" in j]
+        return out
+    hists = [j for j in r.json if isinstance(j, dict) and "steps" in j]
+    r.json = None; r.out = ""
+    # per-action coverage = the calls that are actually replayed (TLC's -coverage costs 5x the run)
+    cov = {a: [0, 0] for a in ACTIONS}; per_kind = {}; viol = {}; seen = 0; nmodes = 0; sample = None
+    for h in hists:
+        if len(h["steps"]) != c["calls"]: raise RuntimeError("Encoders %s: unexpected history %r" % (name, h))
+        h["kind"] = h["init"]["kind"]
+        for st in h["steps"]:
+            cv = cov[ACTION_OF[st["a"]]]; cv[0] += 1; cv[1] += 1
+            pk = per_kind.setdefault(h["kind"], {}); pk[st["a"]] = pk.get(st["a"], 0) + 1
+        cov["Finish"][0] += 1; cov["Finish"][1] += 1
+        seen += 1          # every history is a distinct state of the model: TLC prints each once
+        if len(h["vals"]) != len(h["obj1"]["probe"]): raise RuntimeError("alphabet of %s: %d values, the spec probes %d" % (name, len(h["vals"]), len(h["obj1"]["probe"])))
+        for m in modes_for(c, seen):
+            nmodes += 1
+            try: replay(h, m, E, CobaException, Categorical)
+            except Bad as b:
+                sig = "%s:%s" % (h["kind"], b.sig)
+                v = viol.setdefault(sig, [0, []]); v[0] += 1
+                if len(v[1]) < 4: v[1].append(("%s   [%s; arguments as %s, %s]" % (b.what, text(h), m[0], m[1]), dict(run=name, mode=m, program=text(h), history=h)))
+        if seen == len(hists) // 2 + 1:
+            sample = dict(run=name, program=text(h), expected=[show(s["r"]) if s["r"]["t"] != "nil" else "new: is_fit=%d" % s["new"]["fit"] for s in h["steps"]])
+    out["tlc"]["coverage"] = cov
+    out.update(n=seen, replays=nmodes, viol=viol, per_kind=per_kind, sample=sample)
+    return out
+
+
 def run(ctx):
     import coba.encodings as E
     from coba.exceptions import CobaException
     from coba.primitives import Categorical
     rng = random.Random(ctx.seed)
     C = configs(ctx)
+    byname = {c["name"]: c for c in C}
 
-    # ---- 1. TLC: design runs, guards, generators, the float table ----
+    # ---- 1. TLC: design runs, guards, generators, the float table; every history replayed on the real objects ----
     jobs = []
-    for c in C: jobs.append((c["name"], sub_for(c, keep_inv=c["design"]), dict(workers=ctx.pick(6, 8) if (c["big"] or c["design"]) else 4)))
+    for c in C: jobs.append((c["name"], sub_for(c, keep_inv=c["design"]), dict(workers=4), ctx.scratch, c))
     for g, _, ka, _ in GUARDS:
         gc = dict(ka=ka, size="q" if g == "inner_blanks" else "m", calls=3, objs=3)
-        jobs.append(("guard-" + g, sub_for(gc, variant=g, mode="float" if g == "inner_blanks" else "hist"), dict(workers=1)))
+        jobs.append(("guard-" + g, sub_for(gc, variant=g, mode="float" if g == "inner_blanks" else "hist"), dict(workers=1), ctx.scratch, None))
     fc = dict(ka="Numeric", size=ctx.pick("q", "t"), calls=1, objs=1)
-    jobs.append(("float", sub_for(fc, mode="float"), dict(workers=4)))
+    jobs.append(("float", sub_for(fc, mode="float"), dict(workers=4), ctx.scratch, None))
     big = {c["name"] for c in C if c["big"]}
     jobs.sort(key=lambda j: 0 if j[0] in big else 2 if j[0].startswith("guard-") else 1)     # the long ones first (stable)
 
-    def tlc_job(job):
-        name, sub, kw = job
-        cfg = tracecheck._cfg("Encoders.cfg", sub, ctx.scratch, "enc_%s.cfg" % name)
-        return name, tlc.run("MC_Encoders", cfg, ctx.scratch, timeout=3000, heap="6g", **kw)
+    total = 0; nmodes = 0; per_kind = {}; nsig = {}
 
-    byname = {c["name"]: c for c in C}
-    total = 0; nmodes = 0; nsig = {}; per_kind = {}
-    sampled = set()
-
-    def handle(name, r):
+    def handle(o):
         nonlocal total, nmodes
+        name = o["name"]; r = _R(o["tlc"])
         if name.startswith("guard-"):
             g = name[6:]; expect = [x for x in GUARDS if x[0] == g][0][3]
             ctx.add_tlc("Encoders " + name, r)
-            names = {v["name"] for v in r.violations}
+            names = {v["name"] for v in o["spec_violations"]}
             if not (names & expect):
                 raise RuntimeError("the broken design %r is not rejected by any of %s (got %s): the invariants are vacuous" % (g, sorted(expect), sorted(names)))
             ctx.extra.setdefault("guards_rejected", {})[g] = sorted(names)
             return
+        for v in o["spec_violations"]: ctx.violation("spec:%s" % (v["name"] or v["kind"]), "Encoders.tla (%s) itself violates %s" % (name, v["name"]), v["trace"])
         if name == "float":
             ctx.add_tlc("Encoders float table", r)
-            for v in r.violations: ctx.violation("spec:%s" % (v["name"] or v["kind"]), "Encoders.tla (float) itself violates %s" % v["name"], v["trace"][:60])
-            table = [j for j in r.json if isinstance(j, dict) and "spelling" in j]
-            if len(table) < 500: raise RuntimeError("the float table has only %d spellings" % len(table))
-            float_table(ctx, table, E, CobaException, rng)
+            if len(o["table"]) < 500: raise RuntimeError("the float table has only %d spellings" % len(o["table"]))
+            float_table(ctx, o["table"], E, CobaException, rng)
             return
         c = byname[name]
-        for v in r.violations: ctx.violation("spec:%s" % (v["name"] or v["kind"]), "Encoders.tla (%s) itself violates %s" % (name, v["name"]), v["trace"][:60])
-        hists = [j for j in r.json if isinstance(j, dict) and "steps" in j]
-        r.json = None; r.out = ""
-        if len(hists) < 30: raise RuntimeError("Encoders %s produced only %d histories" % (name, len(hists)))
-        # per-action coverage = the calls that are actually replayed (TLC's -coverage costs 5x the run): an action of the spec that no
-        # history of the run takes makes the run vacuous
-        r.coverage = {a: [0, 0] for a in ACTIONS}
-        seen = 0
-        for h in hists:
-            if len(h["steps"]) != c["calls"]: raise RuntimeError("Encoders %s: unexpected history %r" % (name, h))
-            h["kind"] = h["init"]["kind"]
-            for st in h["steps"]:
-                cv = r.coverage[ACTION_OF[st["a"]]]; cv[0] += 1; cv[1] += 1
-                per_kind.setdefault(h["kind"], collections.Counter())[st["a"]] += 1
-            r.coverage["Finish"][1] += 1
-            seen += 1          # every history is a distinct state of the model: TLC prints each once
-            if len(h["vals"]) != len(h["obj1"]["probe"]): raise RuntimeError("alphabet of %s: %d values, the spec probes %d" % (name, len(h["vals"]), len(h["obj1"]["probe"])))
-            for mi, m in enumerate(modes_for(c, seen)):
-                ctx.case("%s#%d" % (name, seen) if mi == 0 else None); nmodes += 1
-                try: replay(h, m, E, CobaException, Categorical)
-                except Bad as b:
-                    sig = "%s:%s" % (h["kind"], b.sig)
-                    nsig[sig] = nsig.get(sig, 0) + 1
-                    if nsig[sig] > 4: ctx.violation(sig, "", None)          # counted; the first ones carry the text and the replay file
-                    else: ctx.violation(sig, "%s   [%s; arguments as %s, %s]" % (b.what, text(h), m[0], m[1]), dict(run=name, mode=m, program=text(h), history=h))
-            if name not in sampled and seen == len(hists) // 2 + 1:
-                sampled.add(name); ctx.sample(dict(run=name, program=text(h), expected=[show(s["r"]) if s["r"]["t"] != "nil" else "new: is_fit=%d" % s["new"]["fit"] for s in h["steps"]]), limit=10)
-        total += seen
+        if o["n"] < 30: raise RuntimeError("Encoders %s produced only %d histories" % (name, o["n"]))
+        # an action of the spec that no history of the run takes makes the run vacuous
         ctx.add_tlc("Encoders " + name, r, required_actions=ACTIONS if (c["first"] == "any" and c["calls"] >= 2) else ())
-        ctx.extra.setdefault("histories", {})[name] = seen
+        for i in range(o["n"]): ctx.case("%s#%d" % (name, i))
+        ctx.evaluations += o["replays"] - o["n"]
+        total += o["n"]; nmodes += o["replays"]
+        for sig, (cnt, firsts) in sorted(o["viol"].items()):
+            for what, obj in firsts:
+                nsig[sig] = nsig.get(sig, 0) + 1
+                if nsig[sig] <= 4: ctx.violation(sig, what, obj)
+                else: ctx.violation(sig, "", None)
+            for _ in range(cnt - len(firsts)): ctx.violation(sig, "", None)         # counted; the first ones carry the text and the replay file
+        for k, v in o["per_kind"].items():
+            pk = per_kind.setdefault(k, {})
+            for a, n in v.items(): pk[a] = pk.get(a, 0) + n
+        if o["sample"]: ctx.sample(o["sample"], limit=10)
+        ctx.extra.setdefault("histories", {})[name] = o["n"]
 
-    # at most `window` TLC runs in flight or waiting to be replayed (their output is large)
-    window = ctx.pick(4, 3); pending = collections.deque(); it = iter(jobs)
-    with ThreadPoolExecutor(max_workers=window) as ex:
-        for job in itertools.islice(it, window): pending.append(ex.submit(tlc_job, job))
+    # `window` worker processes, each: one TLC run (4 TLC workers) + the replay of its histories; results are taken in job order
+    window = ctx.pick(4, 4); pending = collections.deque(); it = iter(jobs)
+    with ProcessPoolExecutor(max_workers=window, mp_context=multiprocessing.get_context("fork")) as ex:
+        for job in itertools.islice(it, window + 1): pending.append(ex.submit(_job, job))
         while pending:
-            name, r = pending.popleft().result()
+            o = pending.popleft().result()
             nxt = next(it, None)
-            if nxt is not None: pending.append(ex.submit(tlc_job, nxt))
-            handle(name, r)
-            del r
+            if nxt is not None: pending.append(ex.submit(_job, nxt))
+            handle(o)
+            del o
     ctx.exhaustive = True
     ctx.traces += total
-    ctx.extra["calls_replayed_per_kind"] = {k: dict(v) for k, v in sorted(per_kind.items())}
+    ctx.extra["calls_replayed_per_kind"] = {k: dict(sorted(v.items())) for k, v in sorted(per_kind.items())}
     for k, v in per_kind.items():
         missing = [a for a in ACTION_OF if not v.get(a)]
         if missing: raise RuntimeError("no history of kind %s takes %s" % (k, missing))
